@@ -12,5 +12,6 @@ CONSTANTS
   AtomicNew = TRUE
   AtomicLine = TRUE
   ObjCid = FALSE
+  Sink <- KeepAll
 INVARIANTS WholeLines
 CHECK_DEADLOCK FALSE
